@@ -32,7 +32,7 @@ na = [dict(property_id=p, reason=NOT_APPLICABLE.get(p, 'check not built yet in t
       for p in props if p not in CHECKS]
 m = dict(
     version=1,
-    setup_cmd="/venv/bin/python -c \"import hypothesis, numpy, scipy\" || /venv/bin/pip install --no-index --find-links /opt/veriftools/wheels hypothesis",
+    setup_cmd="(/venv/bin/python -c \"import hypothesis\" || /venv/bin/pip install --no-index --find-links /opt/veriftools/wheels hypothesis) && /venv/bin/pip install -q --no-index --find-links /opt/veriftools/wheels --target /verif/.deps mpmath",
     hooks=dict(guard="DADI_VERIF", enable="no source hooks are needed: every observation point is reachable from the public API; run.py sets DADI_VERIF=1 only for its own bookkeeping",
                baseline_off_cmd=BASE, source_commits=[], add_only=True),
     engines=[dict(name="hypothesis-relations", path="/verif/run.py", serves_properties=[c['property_id'] for c in checks],
